@@ -16,6 +16,7 @@ import (
 
 	"github.com/iden3/go-schema-processor/v2/loaders"
 	"github.com/iden3/go-schema-processor/v2/merklize"
+	"github.com/iden3/go-schema-processor/v2/verifiable"
 	"github.com/piprate/json-gold/ld"
 )
 
@@ -136,6 +137,9 @@ func genC15(out *Out, r *Rng, tier string, n int, shard int) {
 		}
 		if i%4 == 1 {
 			emitC15OverHTTP(out, r)
+		}
+		if i%3 == 0 {
+			emitC15CredHistory(out, r)
 		}
 		if i%5 == 3 {
 			// two top-level nodes sharing paths: rejected, or else every field covered (entries == leaves == map)
@@ -415,4 +419,342 @@ func emitC15OverHTTP(out *Out, r *Rng) {
 	http.DefaultTransport = oldT
 	out.Emit(Case{Op: "none", In: J{"doc": string(doc), "term": term, "scoped": scoped, "history": hist}, Impl: okJ(merklized), Prop: propOf(why),
 		Tags: []string{"over-http", fmt.Sprintf("scoped:%v", scoped)}, NT: merklized > 0})
+}
+
+// emitC15CredHistory: the property over the life of one credential object. (*W3CCredential).Merklize is the way a credential's
+// document (the credential without its proofs) reaches the merklizer; the object is merklized, changed, and merklized again -
+// directly and through ToCoreClaim, in default / explicit safe / unsafe mode. Changes are the ordinary ones: a member added to
+// (or removed from) credentialSubject, a nested object of it or credentialStatus in place, a known field or a date given another
+// value in place, an entry of the context list pointed at another revision of the context (one that lacks a term the
+// credential uses), a member replaced by a new object. At every merklization the document is the credential as it is *then*:
+// if it contains a property that does not expand to an absolute IRI, safe mode must reject it; otherwise (and with safe mode
+// off) the result is the merklization of that document without such properties - computed by the harness with
+// merklize.MerklizeJSONLD on the bytes of the present document.
+func emitC15CredHistory(out *Out, r *Rng) {
+	c := randCred(r, r.Chance(30))
+	vc, err := c.W3C()
+	if err != nil {
+		return
+	}
+	initial := string(c.JSON())
+	loader := c.loader()
+	// the type context once more under a second URL, without the term of one of the fields the credential sets
+	var gone string
+	altURL := c.TypeURL + ".rev2.jsonld"
+	if !c.SingleContext {
+		var cand []string
+		for _, f := range c.Fields {
+			if !f.Nested && !f.Absent {
+				cand = append(cand, f.Name)
+			}
+		}
+		if len(cand) > 0 {
+			gone = r.Pick(cand)
+			c2 := *c
+			c2.Fields = nil
+			for _, f := range c.Fields {
+				if f.Name != gone {
+					c2.Fields = append(c2.Fields, f)
+				}
+			}
+			loader.docs[altURL] = c2.typeContext()
+		}
+	}
+	type site struct{ at, key string }
+	var sites []site  // undefined properties the document contains now
+	switched := false // the context list names the revision without `gone`
+	siteMap := func(top map[string]any, status any, at string) map[string]any {
+		switch at {
+		case "credentialSubject":
+			return top
+		case "credentialSubject.addr":
+			m, _ := top["addr"].(map[string]any)
+			return m
+		default:
+			m, _ := status.(map[string]any)
+			return m
+		}
+	}
+	live := func(at string) map[string]any { return siteMap(vc.CredentialSubject, vc.CredentialStatus, at) }
+	places := []string{"credentialSubject", "credentialSubject", "credentialStatus"}
+	if live("credentialSubject.addr") != nil {
+		places = append(places, "credentialSubject.addr", "credentialSubject.addr")
+	}
+	undefValue := func() any {
+		switch r.Intn(8) {
+		case 0:
+			return float64(r.Intn(100))
+		case 1:
+			return r.Bool()
+		case 2:
+			return map[string]any{"inner" + fmt.Sprint(r.Intn(9)): "x"}
+		case 3:
+			return []any{"a", float64(1)}
+		case 4:
+			return nil
+		case 5:
+			return []any{}
+		default:
+			return r.Pick([]string{"some text", "allie", "urn:x:y", "T1", ""})
+		}
+	}
+	// the present document (the credential without its proofs), and the same without its undefined properties
+	docNow := func(strip bool) []byte {
+		b, err := json.Marshal(vc)
+		if err != nil {
+			return nil
+		}
+		var m map[string]any
+		if json.Unmarshal(b, &m) != nil {
+			return nil
+		}
+		delete(m, "proof")
+		if strip {
+			subj, _ := m["credentialSubject"].(map[string]any)
+			for _, s := range sites {
+				if mm := siteMap(subj, m["credentialStatus"], s.at); mm != nil {
+					delete(mm, s.key)
+				}
+			}
+			if switched && subj != nil {
+				delete(subj, gone)
+			}
+		}
+		b, _ = json.Marshal(m)
+		return b
+	}
+	hs := hPoseidon()
+	var hist []any
+	var why []string
+	judged, afterInPlace, withUndef := 0, 0, 0
+	inPlaceSinceStart := false
+	observed := false
+	step := 0
+	observe := func() {
+		step++
+		nu := len(sites)
+		if switched {
+			nu++
+		}
+		mode := "safe-default"
+		switch x := r.Intn(100); {
+		case x < 45:
+		case x < 60:
+			mode = "safe-explicit"
+		case x < 85:
+			mode = "unsafe"
+		default:
+			mode = "to-core-claim"
+		}
+		opts := []merklize.MerklizeOption{merklize.WithDocumentLoader(loader)}
+		switch mode {
+		case "safe-explicit":
+			opts = append(opts, withSafe(true))
+		case "unsafe":
+			opts = append(opts, withSafe(false))
+		case "to-core-claim":
+			// ToCoreClaim merklizes the credential it is called on (outcome recorded, not judged here)
+			_, err := guard(10*time.Second, func() (int, error) {
+				_, e := vc.ToCoreClaim(context.Background(), &verifiable.CoreClaimOptions{MerklizerOpts: opts})
+				return 0, e
+			})
+			hist = append(hist, J{"step": step, "do": "ToCoreClaim", "undefined": nu, "error": err != nil})
+			observed = true
+			return
+		}
+		mz, err := guard(10*time.Second, func() (*merklize.Merklizer, error) {
+			m, e := vc.Merklize(context.Background(), opts...)
+			if e == nil && m == nil {
+				return nil, errNilNil
+			}
+			return m, e
+		})
+		h := J{"step": step, "do": "Merklize", "mode": mode, "undefined": nu, "doc": string(docNow(false))}
+		safe := mode != "unsafe"
+		judged++
+		if inPlaceSinceStart && observed {
+			afterInPlace++
+		}
+		if nu > 0 {
+			withUndef++
+		}
+		observed = true
+		how := ""
+		if inPlaceSinceStart {
+			how = " (the same object was merklized before and changed in place since)"
+		}
+		switch {
+		case safe && nu > 0:
+			if err == nil {
+				h["result"] = mz.Root().BigInt().String()
+				why = append(why, fmt.Sprintf("step %d: safe mode (%s) accepted a credential whose document contains %d propert(y/ies) that do not expand to an absolute IRI%s: a field was silently dropped; document: %s", step, mode, nu, how, docNow(false)))
+			} else {
+				h["result"] = "error"
+			}
+		default:
+			ref := runMerklize(docNow(true), hs, loader, true)
+			if ref.Err != nil {
+				// the document without its undefined properties is itself not merklizable (a value out of its datatype's range): nothing to compare with
+				h["result"], h["reference"] = fmt.Sprint(err != nil), "error"
+				judged--
+				break
+			}
+			refRoot := ref.Mz.Root().BigInt().String()
+			if err != nil {
+				h["result"] = "error"
+				why = append(why, fmt.Sprintf("step %d: credential rejected (%s) although safe mode is off (or nothing is undefined)%s: %v; document: %s", step, mode, how, err, docNow(false)))
+			} else if got := mz.Root().BigInt().String(); got != refRoot {
+				h["result"] = got
+				why = append(why, fmt.Sprintf("step %d: the result (%s, %d undefined) is not the merklization of the present document without its undefined properties%s: root %s, expected %s; document: %s", step, mode, nu, how, got, refRoot, docNow(false)))
+			} else {
+				h["result"] = got
+			}
+		}
+		hist = append(hist, h)
+	}
+	change := func() {
+		step++
+		h := J{"step": step}
+		defer func() { hist = append(hist, h) }()
+		for try := 0; try < 4; try++ {
+			switch x := r.Intn(100); {
+			case x < 40:
+				// a member the contexts do not know, put into the live object
+				at := r.Pick(places)
+				m := live(at)
+				if m == nil {
+					continue
+				}
+				key := r.Pick([]string{"nickname", "note", "extra", "undefinedProp", "comment"}) + fmt.Sprint(r.Intn(1000))
+				if _, dup := m[key]; dup {
+					continue
+				}
+				v := undefValue()
+				m[key] = v
+				sites = append(sites, site{at, key})
+				h["do"], h["at"], h["key"], h["value"] = "add-in-place", at, key, v
+				inPlaceSinceStart = inPlaceSinceStart || observed
+				return
+			case x < 55:
+				if len(sites) == 0 {
+					continue
+				}
+				k := r.Intn(len(sites))
+				s := sites[k]
+				if m := live(s.at); m != nil {
+					delete(m, s.key)
+				}
+				sites = append(sites[:k:k], sites[k+1:]...)
+				h["do"], h["at"], h["key"] = "delete-in-place", s.at, s.key
+				inPlaceSinceStart = inPlaceSinceStart || observed
+				return
+			case x < 67:
+				// a known field gets another value of its datatype, in place
+				var cand []CField
+				for _, f := range c.Fields {
+					if !f.Absent {
+						cand = append(cand, f)
+					}
+				}
+				if len(cand) == 0 {
+					continue
+				}
+				f := cand[r.Intn(len(cand))]
+				l := (&DocGen{r: r}).litFor(xsdNS + f.DT)
+				bb := bytesBuf()
+				writeJSON(bb, l.JSON, nil, false)
+				var v any
+				if json.Unmarshal(bb.Bytes(), &v) != nil {
+					continue
+				}
+				m, name := live("credentialSubject"), f.Name
+				if f.Nested {
+					m, name = live("credentialSubject.addr"), strings.TrimPrefix(f.Name, "addr.")
+				}
+				if m == nil {
+					continue
+				}
+				prev, had := m[name]
+				m[name] = v
+				if runMerklize(docNow(true), hs, loader, true).Err != nil {
+					// not a value of the datatype after all: put the earlier one back, so that later rejections are about undefined properties
+					if had {
+						m[name] = prev
+					} else {
+						delete(m, name)
+					}
+					continue
+				}
+				h["do"], h["field"], h["value"] = "set-known-field-in-place", f.Name, v
+				inPlaceSinceStart = inPlaceSinceStart || observed
+				return
+			case x < 74:
+				// a date changed through its pointer
+				t := time.Unix(int64(r.Intn(2000000000)), 0).UTC()
+				switch {
+				case vc.Expiration != nil && r.Bool():
+					*vc.Expiration = t
+					h["do"] = "set-expiration-in-place"
+				case vc.IssuanceDate != nil:
+					*vc.IssuanceDate = t
+					h["do"] = "set-issuance-in-place"
+				default:
+					continue
+				}
+				h["value"] = t.Format(time.RFC3339)
+				inPlaceSinceStart = inPlaceSinceStart || observed
+				return
+			case x < 86:
+				// an entry of the context list pointed at the other revision of the type context
+				if gone == "" {
+					continue
+				}
+				k := -1
+				for i, u := range vc.Context {
+					if u == c.TypeURL || u == altURL {
+						k = i
+					}
+				}
+				if k < 0 {
+					continue
+				}
+				switched = !switched
+				if switched {
+					vc.Context[k] = altURL
+				} else {
+					vc.Context[k] = c.TypeURL
+				}
+				h["do"], h["context"], h["undefinedTerm"] = "set-context-entry-in-place", vc.Context[k], gone
+				inPlaceSinceStart = inPlaceSinceStart || observed
+				return
+			default:
+				// a member replaced by a new object that has one more (undefined) member
+				nm := map[string]any{}
+				for k, v := range vc.CredentialSubject {
+					nm[k] = v
+				}
+				key := "replaced" + fmt.Sprint(r.Intn(1000))
+				v := undefValue()
+				nm[key] = v
+				vc.CredentialSubject = nm
+				sites = append(sites, site{"credentialSubject", key})
+				h["do"], h["key"], h["value"] = "replace-subject", key, v
+				return
+			}
+		}
+		h["do"] = "nothing"
+	}
+	for round, rounds := 0, 2+r.Intn(3); round < rounds; round++ {
+		if round > 0 || r.Chance(30) {
+			change()
+			if r.Chance(25) {
+				change()
+			}
+		}
+		for k, n := 0, 1+r.Intn(2); k < n; k++ {
+			observe()
+		}
+	}
+	out.Emit(Case{Op: "none", In: J{"credential": initial, "history": hist}, Impl: okJ(judged), Prop: propOf(why),
+		Tags: []string{"cred-object-history", fmt.Sprintf("after-in-place-change:%v", afterInPlace > 0), fmt.Sprintf("undefined-when-merklized:%v", withUndef > 0)}, NT: afterInPlace > 0})
 }
